@@ -18,7 +18,7 @@ theorem convert_affine {c c' : Conv Rat} {q r : Qty Rat} {t : UId}
     (h : CM.exec (convert q t) c = (.ok r, c')) :
     ∃ A B : Rat, r.mag.val = A * ((Pfx.value (c.st.unit! q.unit).pfx : Mag Rat).val * q.mag.val) + B ∧
       r.unit = t := by
-  obtain ⟨hu, _, plan, _, hv⟩ := convert_ok h
+  obtain ⟨hu, plan, _, hv⟩ := convert_ok h
   exact ⟨(affineOf (plan.map PlanStep.toV)).1, (affineOf (plan.map PlanStep.toV)).2,
     by rw [hv, applyPlanV_affine], hu⟩
 
